@@ -20,13 +20,15 @@ ASSUMPTIONS = ['limit tolerances are computed from the captured operator: dt->in
 EPS = np.finfo(float).eps
 
 
-def problem(rng, cls, nmax, need_steady=False, Tu=1.0):
+def problem(rng, cls, nmax, need_steady=False, Tu=1.0, force_periodic=None):
     from ..oracles import AXKIND
-    faces, meta = gen.gen_grid(rng, cls, nmin=1, nmax=nmax)
+    faces, meta = gen.gen_grid(rng, cls, nmin=1, nmax=nmax, family='symmetric' if force_periodic is not None else None)
     g = Geom(cls, faces)
     m = gen.build_mesh(pf, cls, faces)
     capable = [k for k in range(1 if need_steady else 0, g.nd) if AXKIND[cls][k] in ('len', 'ang') and abs(g.w[k][0] - g.w[k][-1]) <= 1e-12 * g.w[k][0]]
     per = [k for k in capable if rng.random() < 0.3]
+    if force_periodic is not None and force_periodic in capable and force_periodic not in per:
+        per = sorted(per + [force_periodic])
     for _ in range(60):
         kinds = None
         if need_steady:
@@ -81,7 +83,7 @@ def run_case(case):
     Tu = 1.0
     if case.get('tunit') and kind in ('be-residual', 'loop', 'fixed-point'):
         Tu = float(10 ** (rng.uniform(8, 11) if rng.random() < 0.6 else rng.uniform(-11, -8)))
-    faces, meta, g, m, spec, S, bvec, mats, tset = problem(rng, cls, nmax, need_steady=kind in ('fixed-point', 'limits'), Tu=Tu)
+    faces, meta, g, m, spec, S, bvec, mats, tset = problem(rng, cls, nmax, need_steady=kind in ('fixed-point', 'limits'), Tu=Tu, force_periodic=case.get('force_periodic'))
     cov, maxerr, bad = {}, {}, []
     if Tu != 1.0:
         cov['time_unit:%s' % ('large' if Tu > 1 else 'small')] = 1
@@ -110,7 +112,17 @@ def run_case(case):
                 alpha, aarr, akind = alpha_of(rng, m, g)
                 old = np.array(phi.value, copy=True)
                 spy = SpySolver()
-                solve_with(pf, spy, phi, [pf.transientTerm(phi, dt, alpha)] + mats + [bvec], default_path=bool(case['seed'][-1] % 2))
+                # the spatial part as separate terms, or assembled by the caller into ONE (matrix, vector) tuple, matrices in any format
+                how_ = int(rng.integers(0, 3))
+                if how_ == 0:
+                    tl_ = [pf.transientTerm(phi, dt, alpha)] + mats + [bvec]
+                elif how_ == 1:
+                    tl_ = [pf.transientTerm(phi, dt, alpha), (sp.csr_array(S).copy(), bvec.copy())]
+                    cov['spatial_part_as_tuple'] = cov.get('spatial_part_as_tuple', 0) + 1
+                else:
+                    tl_ = [(sp.csr_array(S).copy(), bvec.copy()), pf.transientTerm(phi, dt, alpha)]
+                    cov['spatial_part_as_tuple'] = cov.get('spatial_part_as_tuple', 0) + 1
+                solve_with(pf, spy, phi, gen.vary_terms(rng, tl_), default_path=bool(case['seed'][-1] % 2))
                 M, b, x = spy.last
                 if not np.all(np.isfinite(x)):
                     inconclusive = 'singular system'
@@ -127,6 +139,22 @@ def run_case(case):
                     bad.append(('be-residual', 'step %d: alpha*(new-old)/dt + S new - b != 0 (alpha %s, dt %.3g, normalised %.3g)' % (step + 1, akind, dt, e)))
                 if not np.array_equal(np.asarray(phi.value).ravel(), np.asarray(x)[rows]):
                     bad.append(('stored-values', 'values stored after the step are not the solver output'))
+                # "spatial terms applied to new": the new VARIABLE, i.e. the solved interior with the boundary values it reports
+                xr_ = np.asarray(phi._value, dtype=float).ravel()
+                s_all_ = absmv(M, x) + np.abs(b)
+                gm_ = np.ones(len(s_all_), dtype=bool)
+                gm_[rows] = False
+                sb_ = s_all_[gm_]
+                sb_ = sb_[sb_ > 0]
+                amp_ = float(np.max(s_all_)) / float(np.min(sb_)) if sb_.size else 1.0
+                allowed_rep = 1e-7 + 64.0 * len(s_all_) * np.finfo(float).eps * amp_
+                uneq_ = [k_ for k_ in spec['periodic'] if abs(g.w[k_][0] - g.w[k_][-1]) > 1e-12 * g.w[k_][0]]
+                if allowed_rep <= 1e-4 and not uneq_:
+                    e_rep_ = residual_err(Mtr + S, xr_, rtr + bvec, rows, solver_output=True, solved=(M, b))
+                    maxerr['be-residual-reported'] = max(maxerr.get('be-residual-reported', 0.0), e_rep_)
+                    cov['be_reported_steps'] = cov.get('be_reported_steps', 0) + 1
+                    if not (e_rep_ <= allowed_rep):
+                        bad.append(('be-residual-reported', 'step %d: the new variable (solved interior + the boundary values it reports) violates alpha*(new-old)/dt + S new = b (normalised %.3g, allowed %.3g)' % (step + 1, e_rep_, allowed_rep)))
         elif kind in ('fixed-point', 'limits'):
             phi = pf.CellVariable(m, old_vals.copy(), gen.make_bc(pf, m, g, spec))
             spy0 = SpySolver()
@@ -413,6 +441,11 @@ def plan(tier, seed):
             for rep in range(per):
                 cases.append({'cls': cls, 'kind': kind, 'seed': [seed, 12, ci, i], 'sub': ['explicit-update', 'mixed'][rep % 2], 'tunit': rep % 5 == 4})
                 i += 1
+        for k_ in range(NDIM[cls]):           # each periodic-capable axis periodic for sure (declared by one flag or both, see gen)
+            if cls in ('Grid1D', 'Grid2D', 'Grid3D') or k_ > 0:
+                for rep in range(4 if tier == 'quick' else 32):
+                    cases.append({'cls': cls, 'kind': ['be-residual', 'loop'][rep % 2], 'seed': [seed, 12, ci, i], 'sub': 'mixed', 'force_periodic': k_})
+                    i += 1
         step = 9 if NDIM[cls] == 3 else 25
         for j in range(0, len(cases), step):
             chunks.append(cases[j:j + step])
@@ -426,7 +459,7 @@ def floors(agg, tier):
             if agg['cov'].get('kind:%s:%s' % (kind, cls), 0) < 4:
                 out.append('kind:%s:%s < 4' % (kind, cls))
     for k, need in (('be_steps', 50), ('fixed_point_steps', 40), ('limit_inf', 15), ('limit_zero', 15), ('explicit_steps', 50), ('consistency', 15),
-                    ('alpha:scalar', 5), ('alpha:ndarray', 5), ('alpha:cellvar', 5), ('with_periodic', 10), ('loop:explicit-update', 15), ('loop:mixed', 15), ('loop_steps', 40), ('be_wide_dt_steps', 20), ('be_integer_dt_steps', 10), ('time_unit:large', 5), ('time_unit:small', 5), ('loop_steps_on_explicit_result', 30)):
+                    ('alpha:scalar', 5), ('alpha:ndarray', 5), ('alpha:cellvar', 5), ('with_periodic', 10), ('loop:explicit-update', 15), ('loop:mixed', 15), ('loop_steps', 40), ('be_reported_steps', 50), ('be_wide_dt_steps', 20), ('spatial_part_as_tuple', 30), ('be_integer_dt_steps', 10), ('time_unit:large', 5), ('time_unit:small', 5), ('loop_steps_on_explicit_result', 30)):
         if agg['cov'].get(k, 0) < need:
             out.append('%s < %d' % (k, need))
     return out
